@@ -214,6 +214,22 @@ class CallModels:
 
     # ================================================================= indexing
     def index(self, eng, b, k, st):
+        if type(b).__name__ == 'VSubList':
+            # self.subcons[i]: member i of the member list (list indexing: negative indexes count from the end)
+            from .constructs import VSub
+            iv, ok = eng.as_int(k, st)
+            if iv is None:
+                raise OutOfReach('member list indexed by a non-integer')
+            n = t.app('sl_len', t.INT, b.ident)
+            st.assume(t.ge(n, t.ZERO))
+            out = []
+            good, bad = eng.fork(st, t.and_(ok, t.le(t.neg(n), iv), t.lt(iv, n)))
+            if good is not None:
+                idx = t.ite(t.lt(iv, t.ZERO), t.add(iv, n), iv)
+                out.append((good, VSub(t.app('sl_at', t.INT, b.ident, idx), 'member')))
+            if bad is not None:
+                out.extend(eng.raise_(bad, 'IndexError', origin='member list index out of range'))
+            return out
         if isinstance(b, VFunc) and b.model and b.model[0] == 'table':
             return self.interface.tables[b.model[1]].lookup(eng, k, st)
         if isinstance(b, VRef):
